@@ -50,6 +50,10 @@ const (
 	acquired = iota
 	blocked
 	released
+	// reacquiring: block is taking its token back. The status only becomes
+	// acquired once the token is in l.ch, so that a concurrent release never
+	// removes a token that is not there yet (it would take another holder's).
+	reacquiring
 )
 
 // release gives up the holder's spot in ch.
@@ -73,8 +77,12 @@ func (h *holder) block(f func()) {
 			// If we are still blocked, re-acquire. Otherwise, we just got got released
 			// (and that release used our token we gave up), and should no longer try to
 			// re-acquire.
-			if atomic.CompareAndSwapInt64(&h.status, blocked, acquired) {
+			if atomic.CompareAndSwapInt64(&h.status, blocked, reacquiring) {
 				h.l.ch <- struct{}{}
+				if !atomic.CompareAndSwapInt64(&h.status, reacquiring, acquired) {
+					// Released while the token was being taken back: give it up again.
+					<-h.l.ch
+				}
 			}
 		}()
 	}
